@@ -453,7 +453,43 @@ func sortedBeforeUse(info *types.Info, fnBody *ast.BlockStmt, after ast.Stmt, ob
 			return false
 		}
 		id, ok := call.Args[0].(*ast.Ident)
-		return ok && info.Uses[id] == obj
+		if !ok || info.Uses[id] != obj {
+			return false
+		}
+		// the order must be total on the collected elements: the elements are distinct map keys, so sorting
+		// them by their own value is; sorting by a derived key (a line number, a length) leaves elements
+		// with equal keys in map-iteration order
+		switch f.Name() {
+		case "Strings", "Ints", "Float64s", "Sort", "Stable":
+			return f.Name() != "Sort" && f.Name() != "Stable" || len(call.Args) == 1
+		case "Slice", "SliceStable", "SortFunc", "SortStableFunc":
+			if len(call.Args) != 2 {
+				return false
+			}
+			fl, ok := call.Args[1].(*ast.FuncLit)
+			if !ok || len(fl.Body.List) != 1 {
+				return false
+			}
+			ret, ok := fl.Body.List[0].(*ast.ReturnStmt)
+			if !ok || len(ret.Results) != 1 {
+				return false
+			}
+			b, ok := ret.Results[0].(*ast.BinaryExpr)
+			if !ok || (b.Op != token.LSS && b.Op != token.GTR) {
+				return false
+			}
+			// x[i] < x[j] on the collected slice itself
+			isElem := func(e ast.Expr) bool {
+				ix, ok := e.(*ast.IndexExpr)
+				if !ok {
+					return false
+				}
+				bid, ok := ix.X.(*ast.Ident)
+				return ok && info.Uses[bid] == obj
+			}
+			return isElem(b.X) && isElem(b.Y)
+		}
+		return false
 	}
 	return false
 }
